@@ -103,6 +103,7 @@ void do_call_t(MockT<false>& m, int fn, int a0, int a1, Obs& o) {
     case FN_U: { std::unique_ptr<Tracked> p(new Tracked(a0)); o.value = m.u(std::move(p)); o.outcome = OC_RET_INT; break; }
     case FN_S: { std::string s = std::to_string(a0); o.sval = m.s(s); o.outcome = OC_RET_STR; break; }
     case FN_K: { int cell = a0; const MockT<false>& cm = m; const int& r = cm.k(cell); o.refaddr = &r; o.outcome = OC_RET_REF; break; }
+    case FN_Z: m.z(); o.outcome = OC_RET_VOID; break;
     default: break;
   }
 }
@@ -174,7 +175,7 @@ void exec_op(World& W, TaskCtx& T, const Op& op, bool concurrent) {
         Inst& x = *re.inst;
         x.id = rec.exp; for (int i = 0; i < 3; ++i) x.v[i] = rec.v[i];
         x.lo = static_cast<size_t>(rec.L < 0 ? 0 : rec.L); x.hi = static_cast<size_t>(rec.H < 0 ? 0 : rec.H);
-        x.snap = rec.snap; x.cell = re.cell.get();
+        x.snap = rec.snap; x.str = std::to_string(1000 + rec.exp); x.cell = re.cell.get();
         for (int i = 0; i < rec.nseq; ++i) x.s[i] = W.seqs[static_cast<size_t>(rec.seqs[i])].get();
         re.ep = shape_fns(rec.shape).make[0](W.task_refs[static_cast<size_t>(T.id)][static_cast<size_t>(rec.mock)].get(), x);
         T.own_exps.push_back(rec.exp); ++T.n_exp;
@@ -266,7 +267,7 @@ Plan gen_plan_t(uint64_t seed, bool faults) {
   for (int i = 0; i < nmocks; ++i) { Op o; o.kind = OP_NEW_MOCK; p.setup.push_back(o); }
   for (int i = 0; i < nseqs; ++i) { Op o; o.kind = OP_NEW_SEQ; p.setup.push_back(o); }
   int nfocus = rng.range(1, 2), focus[2] = {0, 0};
-  static const int fw[NFN] = {10, 3, 5, 1, 2, 1, 2, 1};
+  static const int fw[NFN] = {10, 3, 5, 1, 2, 1, 2, 1, 2};
   for (int i = 0; i < nfocus; ++i) focus[i] = rng.pick(fw, NFN);
   auto gen_expect = [&](bool want_seq) {
     Op o; o.kind = OP_EXPECT;
